@@ -258,9 +258,8 @@ Definition sort_args (S : schema) (t : nat) (name : nat) (args : list arg) : lis
           | Some fd =>
               let sorted := map (fun d => find (fun av => Nat.eqb (fst av) (a_name d)) args) (f_args fd) in
               let errs :=
-                if Nat.eqb (length sorted) (length args) then []
-                else map (fun av => mkErr [] LOther EBadArg)
-                         (filter (fun av => match find_arg (fst av) (f_args fd) with None => true | Some _ => false end) args) in
+                map (fun av => mkErr [] LOther EBadArg)
+                    (filter (fun av => match find_arg (fst av) (f_args fd) with None => true | Some _ => false end) args) in
               (sorted, errs)
           | None => (map Some args, [])
           end
@@ -597,7 +596,7 @@ with resolve_field (fuel : nat) (obj : gv) (id : nat) (alias : option nat) (name
       (* first visit: ConType = t; sortArgs *)
       let '(cur_args, ea_sort, s0) :=
         match lookup id (s_args s) with
-        | Some t0 => (fst (sort_args S t0 name args), [], s)
+        | Some t0 => (fst (sort_args S t0 name args), snd (sort_args S t0 name args), s)   (* Field.badArgs are reported again *)
         | None => let (a, e) := sort_args S t name args in
                   (a, e, mkSt ((id, t) :: s_args s) (s_calls s))
         end in
@@ -646,6 +645,32 @@ with resolve_field (fuel : nat) (obj : gv) (id : nat) (alias : option nat) (name
   end.
 
 End Walk.
+
+(* ------------------------------------------------------------------ rejection before execution
+   What ParseExecutable (parser + Executable.Validate) refuses among the defects of property C10:
+   a directive that is not defined or not allowed at the place (every directive other than @skip/@include
+   in these documents), @skip/@include without a Boolean-literal-or-variable condition, an inline
+   fragment on an undefined type, a repeated argument.  A fragment DEFINITION on an undefined type is
+   accepted (finding F10a). *)
+Definition dir_rejects (d : dir) : bool :=
+  match d_name d, d_if d with
+  | DOther _, _ => true
+  | _, Some (VBool _) | _, Some (VVar _) => false
+  | _, _ => true
+  end.
+
+Fixpoint has_dup (l : list nat) : bool :=
+  match l with [] => false | x :: r => existsb (Nat.eqb x) r || has_dup r end.
+
+Fixpoint sel_rejects (S : schema) (s : sel) {struct s} : bool :=
+  match s with
+  | SField _ _ _ args dirs sels =>
+      has_dup (map fst args) || existsb dir_rejects dirs || existsb (sel_rejects S) sels
+  | SInline _ cond dirs sels =>
+      match cond with Some c => match lookup c S with None => true | Some _ => false end | None => false end
+      || existsb dir_rejects dirs || existsb (sel_rejects S) sels
+  | SFrag _ _ dirs => existsb dir_rejects dirs
+  end.
 
 (* ------------------------------------------------------------------ operations *)
 Inductive opkind := OpQuery | OpMutation | OpSubscription.
@@ -708,3 +733,7 @@ Definition exec_op (S : schema) (G : graph) (any_installed : bool) (max_depth fu
             end
       end
   end.
+
+Definition doc_rejects (S : schema) (d : doc) : bool :=
+  existsb (fun o => existsb (sel_rejects S) (op_sels o)) (d_ops d)
+  || existsb (fun nf => existsb (sel_rejects S) (fr_sels (snd nf))) (d_frags d).
